@@ -58,7 +58,12 @@ HmapCreate(kind) == Can /\ Room("hmap") /\ Step("caller_hmap_create", <<kind>>, 
 \* a = 0 stands for the NULL action: the input list itself comes back (no new object)
 HeaderFilter(aid, h) == Can /\ (aid = 0 \/ Room("hmap")) /\ Step("action_header_filter_filter", <<aid, h.id>>, IF aid = 0 THEN {} ELSE {New("hmap")}, {})
 \* only an action that carries body filters yields a filter object; the others answer NULL
-FilterCreate(a, hid) == Can /\ Room("filter") /\ Step("action_body_filter_create", <<a.id, hid>>, IF a.k = "filters" THEN {New("filter")} ELSE {}, {})
+\* hid = 0: the caller passes a transient text/html header list of its own (created and released around the call);
+\* hid = NoHeaders: a NULL header list; otherwise a live hmap
+NoHeaders == 9999
+FilterCreate(a, hid) == Can /\ Room("filter") /\ Step("action_body_filter_create", <<a.id, hid>>,
+                             \* the filter's kind records whether its HTML stage exists (a text/html content type was given)
+                             IF a.k = "filters" THEN {NewK("filter", IF hid = 0 \/ \E h \in Of("hmap") : h.id = hid /\ h.k = "html" THEN "html" ELSE "text")} ELSE {}, {})
 BufferCreate(p) == Can /\ Room("buffer") /\ Step("caller_buffer_create", <<p>>, {NewK("buffer", p)}, {})
 \* f = 0 stands for the NULL filter: the buffer is duplicated and stays with the caller
 FilterFilter(fid, b) == Can /\ (fid # 0 \/ Room("buffer")) /\ Step("action_body_filter_filter", <<fid, b.id>>, {New("buffer")}, IF fid = 0 THEN {} ELSE {b})
@@ -85,7 +90,7 @@ Next ==
                               \/ SetRemoteAddr(r, 0) \/ (\E p \in Of("proxies") : SetRemoteAddr(r, p.id))
   \/ \E k \in {"redirect", "filters", "empty", "nul"} : ActionCreate(k)
   \/ \E a \in Of("action") : ActionSerialize(a) \/ ActionStatus(a) \/ ActionLog(a) \/ ActionDrop(a)
-                             \/ FilterCreate(a, 0) \/ (\E h \in Of("hmap") : FilterCreate(a, h.id) \/ HeaderFilter(a.id, h))
+                             \/ FilterCreate(a, 0) \/ FilterCreate(a, NoHeaders) \/ (\E h \in Of("hmap") : FilterCreate(a, h.id) \/ HeaderFilter(a.id, h))
   \/ \E k \in {"empty", "two", "html", "bad"} : HmapCreate(k)
   \/ \E h \in Of("hmap") : HeaderFilter(0, h) \/ HmapFree(h)
   \/ \E p \in Payloads : BufferCreate(p)
